@@ -124,6 +124,9 @@ def build_item(it):
         return {"kind": "enum", "attrs": attrs, "ident": name, "generics": gens, "variants": vs}
     if kind in ("alias", "galias"):
         ty = uses[0] if uses else (t_path("Vec", [t_path("T")]) if kind == "galias" else t_path("String"))
+        if kind == "alias" and it.get("decorated"):
+            # type-level decorators (Kotlin writes a `@JvmInline value class` for the alias, Swift adds conformances): the name stays
+            attrs = [m_list("typeshare", [m_nv("kotlin", lit_s("JvmInline")), m_nv("swift", lit_s("Equatable"))])] + attrs[1:]
         return {"kind": "alias", "attrs": attrs, "ident": name, "generics": gens, "ty": ty}
     raise ValueError(kind)
 
@@ -135,7 +138,8 @@ def build_file(items):
 def random_program(rng):
     n = rng.randint(3, 6)
     items = [{"name": NAMES[i], "kind": rng.choice(KINDS), "rename": rng.random() < 0.5,
-              "rename_all": rng.choice([None, None, "lowercase", "camelCase", "snake_case", "SCREAMING_SNAKE_CASE", "kebab-case"])} for i in range(n)]
+              "rename_all": rng.choice([None, None, "lowercase", "camelCase", "snake_case", "SCREAMING_SNAKE_CASE", "kebab-case"]),
+              "decorated": rng.random() < 0.4} for i in range(n)]
     if rng.random() < 0.1:
         # an item with the name of the generic parameter of the other items (shadowing)
         plain = [it for it in items if it["kind"] not in GENERIC]
